@@ -30,13 +30,14 @@ EXTENDS TracerCases
 
 CONSTANTS EsrchFatal,   \* TRUE = tree before the fix: ESRCH from a ptrace request ends the run
           ChildSigsysIgnored,  \* TRUE = tree before the fix: a filter-killed child process does not end the run
+          Noise,        \* TRUE = model SIGCHLD to parents and group-stop participation of sibling threads
           AnyDecision   \* TRUE = C15: the handler's answer is arbitrary (tracee memory unreadable / garbage)
 
 BanRet == 13
 SIGTRAP == 5   SIGKILL == 9   SIGUSR1 == 10   SIGCHLD == 17   SIGSTOP == 19   SIGSYS == 31
 
 VARIABLES
-  script, dec, par, knd,     \* the case (constant during a behaviour)
+  script, dec, par, knd, ldr, \* the case (constant during a behaviour); ldr = thread-group leader of each task
   ts,       \* [task -> "unborn","run","stop" (stopped, not yet reported),"held" (reported, waiting for the tracer),"zombie","dead"]
   ev,       \* [task -> [t, x]] the pending / reported event of a stop or the exit status of a zombie
   pc,       \* [task -> index of the current op]
@@ -64,7 +65,7 @@ VARIABLES
 kvars == <<ts, ev, pc, sub, pend, gtok, regs, opts, scnt, lph, esc>>
 tvars == <<tpc, cur, csig, traced, execved, result>>
 ovars == <<executed, uexec, rets, trapped>>
-cvars == <<script, dec, par, knd>>
+cvars == <<script, dec, par, knd, ldr>>
 vars == <<cvars, kvars, tvars, ovars>>
 \* model-checking view: the order of handler consultations is history only
 MCView == <<cvars, kvars, tvars, executed, uexec, rets, { trapped[i] : i \in DOMAIN trapped }>>
@@ -77,9 +78,8 @@ NoEv == Ev("none", 0)
 (* ------------------------------------------------------------------ structure *)
 Alive(k) == ts[k] \in {"run", "stop", "held"}
 \* thread-group leader of a task
-RECURSIVE Leader(_)
-Leader(k) == IF knd[k] = "C" THEN Leader(par[k]) ELSE k
-Group(k) == { j \in Tasks : Leader(j) = Leader(k) }
+Leader(k) == ldr[k]
+Group(k) == { j \in Tasks : ldr[j] = ldr[k] }
 IsThread(k) == knd[k] = "C"
 EndOp(k) == IF IsThread(k) THEN Op("E", "", 0) ELSE Op("X", "", 0)
 CurOp(k) == IF pc[k] \in DOMAIN script[k] THEN script[k][pc[k]] ELSE EndOp(k)
@@ -88,7 +88,7 @@ Created(k) == { j \in Tasks : par[j] = k /\ ts[j] # "unborn" }
 
 InitCase(c) ==
   /\ script = c.script /\ dec = c.dec
-  /\ par = ParOf(c.script) /\ knd = KindOf(c.script)
+  /\ par = ParOf(c.script) /\ knd = KindOf(c.script) /\ ldr = LeaderOf(c.script)
   /\ ts = [k \in DOMAIN c.script |-> IF k = 1 THEN "run" ELSE "unborn"]
   /\ ev = [k \in DOMAIN c.script |-> NoEv]
   /\ pc = [k \in DOMAIN c.script |-> 1]
@@ -217,7 +217,7 @@ Die(G, e) ==
   /\ ts' = [j \in Tasks |-> IF j \in G /\ Alive(j) THEN "zombie" ELSE ts[j]]
   /\ ev' = [j \in Tasks |-> IF j \in G /\ Alive(j) THEN e ELSE ev[j]]
 ChldTo(k) == LET p == par[Leader(k)] IN
-  IF p # 0 /\ Alive(p) THEN [pend EXCEPT ![p] = @ \cup {SIGCHLD}] ELSE pend
+  IF Noise /\ p # 0 /\ Alive(p) THEN [pend EXCEPT ![p] = @ \cup {SIGCHLD}] ELSE pend
 
 K_ExitGroup(k) ==
   /\ Ready(k) /\ sub[k] = "" /\ CurOp(k).k = "X"
@@ -266,7 +266,7 @@ Resume(k, s) ==
        \* participation each (and k itself may be asked once more: observed on 6.x kernels).
        /\ ts' = [ts EXCEPT ![k] = "stop"]
        /\ ev' = [ev EXCEPT ![k] = Ev("grp", SIGSTOP)]
-       /\ gtok' = [j \in Tasks |-> IF j \in Group(k) /\ j # k /\ Alive(j) THEN 1
+       /\ gtok' = [j \in Tasks |-> IF ~Noise THEN gtok[j] ELSE IF j \in Group(k) /\ j # k /\ Alive(j) THEN 1
                                    ELSE IF j = k /\ Cardinality({i \in Group(k) : Alive(i)}) > 1 THEN 1 ELSE gtok[j]]
        /\ pend' = ChldTo(k)
        /\ UNCHANGED scnt
@@ -284,6 +284,9 @@ Reportable(k) ==
         /\ (Leader(k) = k => \A j \in Group(k) \ {k} : ts[j] \in {"unborn", "dead"})
 Waitable(k) == IF execved THEN TRUE ELSE k = 1      \* wait4(-pgid) / wait4(pgid)
 
+StatusNo(st) == CASE st = "Normal" -> 1 [] st = "TLE" -> 2 [] st = "MLE" -> 3 [] st = "OLE" -> 4
+                  [] st = "Disallowed" -> 5 [] st = "Signalled" -> 6 [] st = "Nonzero" -> 7
+                  [] st = "RunnerError" -> 8 [] OTHER -> 0       \* runner.Status numbers
 StatusOfSignal(s) == IF s = SIGKILL THEN "TLE" ELSE IF s = SIGSYS THEN "Disallowed" ELSE "Signalled"
 Finish(st, x) == result' = [status |-> st, exit |-> x] /\ tpc' = "fin"
 
@@ -368,21 +371,21 @@ Spec == Init /\ [][Next]_vars
 FairSpec == Spec /\ WF_vars(TNext) /\ WF_vars(KNext)
 
 (* ================================================================== PROPERTY LAYER *)
-RetsOf(m) == { r \in UNION { { [t |-> k, r |-> rets[k][i]] : i \in DOMAIN rets[k] } : k \in Tasks } :
-                 r.r.op = "T" /\ script[r.t][r.r.i].a = m }
 TrappedSet == { trapped[i].m : i \in DOMAIN trapped }
 Finished == tpc \in {"fin", "done"}
+\* every return value the program saw for a marker call satisfies P(marker, ret)
+AllRets(P(_, _)) == \A k \in Tasks : \A i \in DOMAIN rets[k] :
+                      rets[k][i].op = "T" => P(script[k][rets[k][i].i].a, rets[k][i].ret)
 
 \* C03: a banned call never runs and its caller sees -BanRet
-EnforcedBan == \A m \in DOMAIN dec : dec[m] = "ban" =>
-                  m \notin executed /\ \A r \in RetsOf(m) : r.r.ret = -BanRet
+EnforcedBan == /\ \A m \in DOMAIN dec : dec[m] = "ban" => m \notin executed
+               /\ AllRets(LAMBDA m, r : dec[m] = "ban" => r = -BanRet)
 \* C03: a killed call never runs, never returns, and the run ends as Disallowed Syscall
-EnforcedKill == \A m \in DOMAIN dec : dec[m] = "kill" =>
-                  /\ m \notin executed /\ RetsOf(m) = {}
-                  /\ (m \in TrappedSet /\ Finished => result.status = "Disallowed")
+EnforcedKill == /\ \A m \in DOMAIN dec : dec[m] = "kill" =>
+                     m \notin executed /\ (m \in TrappedSet /\ Finished => result.status = "Disallowed")
+                /\ AllRets(LAMBDA m, r : dec[m] # "kill")
 \* C03: an allowed call runs with its real result
-EnforcedAllow == \A m \in DOMAIN dec : dec[m] = "allow" =>
-                  \A r \in RetsOf(m) : r.r.ret = 0 /\ m \in executed
+EnforcedAllow == AllRets(LAMBDA m, r : dec[m] = "allow" => r = 0 /\ m \in executed)
 \* C03: nothing runs behind the tracer's back: a call that ran was put to the handler first, and no
 \* task runs program code before the tracer has seen its first stop
 EnforcedTraced == /\ executed \subseteq TrappedSet
